@@ -454,6 +454,18 @@ func (abvt *accountBlockTransactionVerifier) descendantBlocks() error {
 		return ErrABDescendantMustBeZero
 	}
 	for _, dBlock := range block.DescendantBlocks {
+		// the hash of the parent only commits to the hashes of the descendants,
+		// so each descendant has to commit to its own content
+		if dBlock.ComputeHash() != dBlock.Hash {
+			return DescendantVerifyError(ErrABHashInvalid)
+		}
+		// same rule as for the embedded receive-block itself
+		if len(dBlock.PublicKey) != 0 {
+			return DescendantVerifyError(ErrABPublicKeyMustBeZero)
+		}
+		if len(dBlock.Signature) != 0 {
+			return DescendantVerifyError(ErrABSignatureMustBeZero)
+		}
 		if err := (&accountBlockVerifier{
 			block:         dBlock,
 			accountStore:  abvt.accountStore,
